@@ -56,7 +56,9 @@ namespace pl
     // TAG distinguishes types; PAD pads the object; NT_MOVE: move constructor is noexcept; TH_COPY / TH_MOVE / TH_ASSIGN:
     // the respective operation is a throw point; ALIGN: alignment requirement.
     // NT_COPY: the copy constructor is declared noexcept (it then must not be a throw point)
-    template <int TAG, std::size_t PAD, bool NT_MOVE, bool TH_COPY, bool TH_MOVE, bool TH_ASSIGN, std::size_t ALIGN = alignof(void*), bool NT_COPY = false>
+    // NT_MASSIGN: 0 = move assignment is noexcept exactly when the move constructor is (NT_MOVE); 1 = move assignment is noexcept
+    // (and never a throw point) although the move constructor may throw
+    template <int TAG, std::size_t PAD, bool NT_MOVE, bool TH_COPY, bool TH_MOVE, bool TH_ASSIGN, std::size_t ALIGN = alignof(void*), bool NT_COPY = false, bool NT_MASSIGN = false>
     struct alignas(ALIGN) Tracked : Pad<PAD>
     {
         static const int tag = TAG;
@@ -103,11 +105,11 @@ namespace pl
             if (cell && o.cell) *cell = *o.cell;
             return *this;
         }
-        Tracked& operator=(Tracked&& o) noexcept(NT_MOVE)
+        Tracked& operator=(Tracked&& o) noexcept(NT_MOVE || NT_MASSIGN)
         {
             use(this, "move-assignment to");
             use(&o, "move-assignment from");
-            if (TH_ASSIGN || TH_MOVE) throw_point("move assign");
+            if ((TH_ASSIGN || TH_MOVE) && !NT_MASSIGN) throw_point("move assign");
             if (cell && o.cell && this != &o) { *cell = *o.cell; o.cell->moved = true; }
             return *this;
         }
